@@ -310,6 +310,20 @@ impl Check for C10 {
                 p
             }));
         }
+        // a terminal that hangs also stops draining its socket: silence at every emission point, and whatever
+        // the client still writes on that connection stays pending for ever
+        {
+            let (cases, wl) = (cases.clone(), wl.clone());
+            fams.push(Family::new("silent_terminal_that_stops_reading", cases.len() as u64, true, move |i, _| {
+                let (wi, point) = cases[i as usize];
+                let mut p = ClientPlan::plain(wl[wi].clone());
+                p.cfg.max_tx = 2;
+                p.faults = vec![FaultSpec { conn: 0, point, kind: FaultKind::Silence }];
+                p.pt.silent_terminal_stops_reading = true;
+                p.label = "stops_reading".into();
+                p
+            }));
+        }
         // a terminal (or a bridge in front of it) that closes the connection after every completed
         // command: every call needs a fresh connection per exchange - and still returns
         fams.push(Family::new("terminal_closes_after_every_exchange", 5 * 2, true, {
@@ -497,7 +511,7 @@ impl Check for C10 {
             h.bytes(plan.cfg.terminal_id.as_bytes());
         }
         out.shape = h.finish();
-        out.nontrivial = !plan.faults.is_empty() || !plan.connects.is_empty() || plan.label == "tau" || plan.label == "beyond_range" || plan.label == "cards" || plan.label.starts_with("max_tx") || plan.label == "close_each" || plan.label == "odd_tlv" || plan.label == "cancelled";
+        out.nontrivial = !plan.faults.is_empty() || !plan.connects.is_empty() || plan.label == "tau" || plan.label == "beyond_range" || plan.label == "cards" || plan.label.starts_with("max_tx") || plan.label == "close_each" || plan.label == "odd_tlv" || plan.label == "cancelled" || plan.label == "stops_reading";
         if want_trace {
             out.trace = run.trace();
         }
